@@ -216,8 +216,12 @@ def c2s_agree(cts, e, V, names, pts):
             continue
         except Exception as ex:
             return "evalfail", type(ex).__name__
-        if math.isnan(val):  # SymPy declares the point outside the domain (e.g. atan2(0, 0))
-            continue
+        if math.isnan(val):
+            # SymPy declares the point outside the domain: accepted when some live CasADi node is undefined there too
+            # (log of a negative number, 0/0, atan2(0, 0)); a NaN although every contributing node is finite is a wrong
+            # translation (e.g. of a guarded singularity) and goes through the disagreement pipeline below
+            if has_nonfinite_intermediate(e, V, pt) or undefined_in_sympy_only(e, V, pt):
+                continue
         n_ok += 1
         if not close(val, ref):
             vd = double_eval(s, names, pt)
@@ -248,21 +252,47 @@ def c2s_agree(cts, e, V, names, pts):
     return ("ok" if n_ok else "nopoints"), None
 
 
-def has_nonfinite_intermediate(e, V, pt):
+def live_nodes(e, V, pt, cap=400):
+    """nodes of e that contribute to its value at pt: the value operand of an if_else_zero whose condition is false there is
+    dead (the guarded branch of `if_else(x != 0, sin(x)/x, 1)` at x = 0 is the library's own idiom, not a domain error)"""
     nodes, seen, stack = [], set(), [e]
-    while stack and len(nodes) < 400:
+    while stack and len(nodes) < cap:
         x = stack.pop()
         h = x.element_hash()
         if h in seen or x.is_symbolic() or x.is_constant():
             continue
         seen.add(h)
         nodes.append(x)
+        if x.op() == ca.OP_IF_ELSE_ZERO:
+            stack.append(x.dep(0))
+            try:
+                c = float(ca.Function("c", V, [x.dep(0)])(*pt))
+            except Exception:
+                c = 1.0
+            if c != 0:
+                stack.append(x.dep(1))
+            continue
         for i in range(x.n_dep()):
             stack.append(x.dep(i))
+    return nodes
+
+
+def has_nonfinite_intermediate(e, V, pt):
+    nodes = live_nodes(e, V, pt)
     if not nodes:
         return False
     F = ca.Function("N", V, [ca.vertcat(*nodes)])
     return not np.isfinite(np.array(F(*pt))).all()
+
+
+def undefined_in_sympy_only(e, V, pt):
+    """live nodes where IEEE/CasADi defines a value and SymPy does not: atan2(0, 0)"""
+    for x in live_nodes(e, V, pt):
+        if x.op() == ca.OP_ATAN2:
+            a, b = [float(ca.Function("c", V, [x.dep(i)])(*pt)) for i in (0, 1)]
+            if a == 0 and b == 0:
+                return True
+    return False
 
 
 def discontinuity_margin(e, V, pt):
@@ -405,6 +435,23 @@ def casadi_to_sympy_dir(ctx, n_trees, depth):
             ctx.tally("casadi_to_sympy:tie")
             if not close(val, ref):
                 ctx.violation("casadi_to_sympy_value", "comparison_at_tie", {"expr": str(e), "kind": tname, "point": pt.tolist(), "casadi_value": ref, "sympy_value": val})
+    # guarded singularities evaluated at the guard (the idiom of the library's own series: if_else(|x| < eps, taylor, closed form))
+    x_, y_ = V[0], V[1]
+    guarded = {
+        "sinc_at_0": (ca.if_else(ca.ne(x_, 0), ca.sin(x_) / x_, 1), [np.array([0.0, 1.0, 0.0]), np.array([0.3, 1.0, 0.0]), np.array([-2.0, 0.0, 0.0])]),
+        "xlogx_at_0": (ca.if_else(x_ > 0, x_ * ca.log(x_), 0), [np.array([0.0, 0.0, 0.0]), np.array([0.5, 0.0, 0.0]), np.array([2.0, 0.0, 0.0])]),
+        "inv_diff_at_tie": (ca.if_else(ca.fabs(x_ - y_) > 1e-6, 1 / (x_ - y_), 1e6), [np.array([1.5, 1.5, 0.0]), np.array([1.5, 0.5, 0.0]), np.array([0.0, 0.0, 0.0])]),
+        "one_minus_cos_over_x2": (ca.if_else(ca.fabs(x_) < 1e-3, 0.5 - x_ * x_ / 24, (1 - ca.cos(x_)) / (x_ * x_)), [np.array([0.0, 0.0, 0.0]), np.array([5e-4, 0.0, 0.0]), np.array([0.7, 0.0, 0.0])]),
+        "sqrt_guard": (ca.if_else(x_ >= 0, ca.sqrt(x_), -ca.sqrt(-x_)) + y_, [np.array([4.0, 1.0, 0.0]), np.array([-4.0, 1.0, 0.0]), np.array([0.0, 1.0, 0.0])]),
+        "nested_guard": (ca.if_else(x_ > 0, ca.if_else(y_ > 0, ca.log(x_) + ca.log(y_), ca.log(x_)), 0.25), [np.array([2.0, -1.0, 0.0]), np.array([-2.0, 3.0, 0.0]), np.array([2.0, 3.0, 0.0]), np.array([0.0, 0.0, 0.0])]),
+    }
+    for gname, (e, gpts) in guarded.items():
+        st, det = c2s_agree(cts, e, V, names, gpts)
+        ctx.tally("casadi_to_sympy:guarded_singularity")
+        if st == "bad":
+            ctx.violation("casadi_to_sympy_value", "guarded_singularity", {"expr": str(e)[:200], "kind": gname, **det})
+        elif st != "ok":
+            ctx.count("c2s_guarded_%s:%s" % (st, gname))
     # floating-point constants must come back unchanged, however close to an integer or to zero they are
     for cval in (1e-7, 2.5e-7, -3e-8, 3.0000004, -1.9999997, 1.0000002, 0.9999996, 1e-12, 2.5, -0.3, 1e-3, 123456.789, 1e20):
         e = ca.SX(cval) * V[0] + ca.if_else(ca.fabs(V[1]) < cval, 1, 2)
